@@ -19,16 +19,16 @@ import (
 // call of the module on that vector with an explicit argument list must pass exactly that many. WithLabelValues is
 // variadic, so a call site that was not updated when a label was added still compiles - and panics the first time
 // its branch runs (in the codec: instead of returning the repair error).
-func checkMetricLabelArity(c *Ctx, res *report.Result, rule string, files []string, minSites int) {
+func metricVectorLabels(c *Ctx, res *report.Result, rule string) (map[*ssa.Global]int, func(ssa.Value, int) (int, bool)) {
 	mp, err := c.Prog.SSAPkg("metrics")
 	if err != nil {
 		res.Undec(rule, "package metrics", "", err.Error())
-		return
+		return nil, nil
 	}
 	init := mp.Func("init")
 	if init == nil {
 		res.Undec(rule, "package metrics", "", "no initialiser")
-		return
+		return nil, nil
 	}
 	// stores into package variables, by variable
 	stored := map[*ssa.Global]ssa.Value{}
@@ -90,6 +90,14 @@ func checkMetricLabelArity(c *Ctx, res *report.Result, rule string, files []stri
 	if len(labels) < 10 {
 		res.Undec(rule, "metric vectors of package metrics", "", fmt.Sprintf("%d vectors with a countable label list, at least 10 expected", len(labels)))
 	}
+	return labels, count
+}
+
+func checkMetricLabelArity(c *Ctx, res *report.Result, rule string, files []string, minSites int) {
+	labels, count := metricVectorLabels(c, res, rule)
+	if labels == nil {
+		return
+	}
 	// call sites
 	n := 0
 	var fs []*ssa.Function
@@ -137,5 +145,143 @@ func checkMetricLabelArity(c *Ctx, res *report.Result, rule string, files []stri
 	}
 	if n < minSites {
 		res.Undec(rule, "WithLabelValues call sites", "", fmt.Sprintf("%d found with an explicit value list, at least %d expected", n, minSites))
+	}
+}
+
+// checkMetricLabelSpread: the stream handlers pass their label values as a slice kept in a struct field
+// (`f.metricLabelValues...`, `append(f.metricLabelValues, "source")...`), whose length is fixed where the proxy is
+// wired together. Every such call site implies a length of that slice: the vector's label count minus the values
+// appended at the site. All sites that spread the same field must imply the same length - whatever it is, an object
+// cannot satisfy two different ones, so a disagreement is a line that panics when it runs (prometheus: "inconsistent
+// label cardinality"). In the forwarder's goroutines that panic is outside the handler's CapturePanic: the process,
+// and with it every other stream, ends.
+func checkMetricLabelSpread(c *Ctx, res *report.Result, rule string, files []string, minSites int) {
+	labels, count := metricVectorLabels(c, res, rule)
+	if labels == nil {
+		return
+	}
+	type site struct {
+		f       *ssa.Function
+		call    ssa.CallInstruction
+		g       *ssa.Global
+		implied int
+		extra   int
+	}
+	byBase := map[string][]site{}
+	baseOf := func(v ssa.Value) (string, bool) {
+		base, field, ok := flow.FieldLoadOf(v)
+		if !ok {
+			return "", false
+		}
+		t := base.Type()
+		if pt, isP := t.Underlying().(*types.Pointer); isP {
+			t = pt.Elem()
+		}
+		return types.TypeString(t, func(p *types.Package) string { return p.Name() }) + "." + field, true
+	}
+	n := 0
+	for _, f := range c.Prog.RepoFuncs() {
+		if !isShippedFunc(f) || len(f.Blocks) == 0 {
+			continue
+		}
+		pos := c.Prog.Pos(f.Pos())
+		in := false
+		for _, fl := range files {
+			if strings.HasPrefix(pos, fl) {
+				in = true
+			}
+		}
+		if !in {
+			continue
+		}
+		for _, call := range flow.Calls(f) {
+			sc := flow.StaticCallee(call.Common())
+			if sc == nil || sc.Name() != "WithLabelValues" || len(call.Common().Args) < 2 {
+				continue
+			}
+			ld, ok := call.Common().Args[0].(*ssa.UnOp)
+			if !ok {
+				continue
+			}
+			g, ok := ld.X.(*ssa.Global)
+			if !ok {
+				continue
+			}
+			want, known := labels[g]
+			if !known {
+				continue
+			}
+			arg := call.Common().Args[1]
+			if _, explicit := count(arg, 0); explicit {
+				continue
+			}
+			extra := 0
+			for d := 0; d < 4; d++ {
+				ap, isCall := arg.(*ssa.Call)
+				if !isCall {
+					break
+				}
+				bi, isB := ap.Call.Value.(*ssa.Builtin)
+				if !isB || bi.Name() != "append" {
+					break
+				}
+				k, okk := count(ap.Call.Args[1], 0)
+				if !okk {
+					extra = -1
+					break
+				}
+				extra += k
+				arg = ap.Call.Args[0]
+			}
+			key, isField := baseOf(arg)
+			if extra < 0 || !isField {
+				continue // a slice built some other way: not decided here
+			}
+			n++
+			byBase[key] = append(byBase[key], site{f, call, g, want - extra, extra})
+		}
+	}
+	var keys []string
+	for k := range byBase {
+		keys = append(keys, k)
+	}
+	sort.Strings(keys)
+	for _, key := range keys {
+		sites := byBase[key]
+		votes := map[int]int{}
+		for _, s := range sites {
+			votes[s.implied]++
+		}
+		best, bestN := 0, -1
+		for v, k := range votes {
+			if k > bestN || (k == bestN && v < best) {
+				best, bestN = v, k
+			}
+		}
+		sort.Slice(sites, func(i, j int) bool {
+			if sites[i].f != sites[j].f {
+				return sites[i].f.String() < sites[j].f.String()
+			}
+			return sites[i].call.Pos() < sites[j].call.Pos()
+		})
+		seen := map[string]int{}
+		for _, s := range sites {
+			k := shortFn(s.f) + ": " + s.g.Name()
+			seen[k]++
+			res.Check(s.implied == best, rule, fmt.Sprintf("%s.WithLabelValues(%s...) #%d agrees with the other sites on the length of %s", k, key, seen[k], key), instrPos(c.Prog, s.call),
+				fmt.Sprintf("%d labels - %d appended = %d, like %d of %d sites", labels[s.g], s.extra, s.implied, bestN, len(sites)),
+				fmt.Sprintf("this site needs %s to hold %d values (%d labels - %d appended), %d of the %d sites that spread the same field need %d: no object satisfies both, so one of them panics with 'inconsistent label cardinality' when it runs - in a stream worker that is outside the handler's panic capture and ends the process", key, s.implied, labels[s.g], s.extra, bestN, len(sites), best))
+		}
+	}
+	if n < minSites {
+		res.Undec(rule, "WithLabelValues call sites that spread a label slice field", "", fmt.Sprintf("%d found, at least %d expected", n, minSites))
+	}
+}
+
+func init() {
+	Registry["XLBL"] = func(c *Ctx) (*report.Result, error) {
+		res := newResult("XLBL")
+		checkMetricLabelSpread(c, res, "X.spread", []string{"proxy/", "transport/", "interceptor/", "proto/"}, 0)
+		return res, nil
 	}
 }
